@@ -63,6 +63,11 @@ pub trait Engine {
     }
     fn op_proj(o: &Self::O, d: &Dims) -> Value;
     fn canon_op(o: &Value) -> Value;
+    /// the part of an op that layer A determines (dot, element/key, top-level contexts); what is left
+    /// out (clocks hidden inside nested ops) is layer-B detail: a difference there is drift, not a violation
+    fn op_a_view(o: &Value) -> Value {
+        o.clone()
+    }
     fn validate_op(s: &Self::S, o: &Self::O) -> String;
     fn validate_merge(_a: &Self::S, _b: &Self::S) -> String {
         "Ok".into()
@@ -858,7 +863,11 @@ impl<'a, E: Engine> Replayer<'a, E> {
             let real_op = E::op_proj(op, &d);
             let mo = E::canon_op(mop);
             let gp = E::gen_op_props();
-            self.judge(&gp, "gen.op", real_op, mo, None, h, pend_now, Value::Null);
+            let (ra, ma) = (E::op_a_view(&real_op), E::op_a_view(&mo));
+            if ra == ma && real_op != mo {
+                self.rep.add("drift", &[], E::NAME, "gen.op.hidden", real_op.clone(), Value::Null, mo.clone(), h, Value::Null);
+            }
+            self.judge(&gp, "gen.op", ra, ma, None, h, pend_now, Value::Null);
         }
 
         // 4. C01 / C20 across behaviours: equal sets of learned ops => equal reads (causal op
